@@ -20,6 +20,9 @@ func (vc *VC) pkgFuncName(f *ssa.Function) string {
 }
 
 func (vc *VC) contractOf(f *ssa.Function) *FuncSpec {
+	if fs, ok := vc.L.Con.Funcs[f.RelString(vc.L.SPkg.Pkg)]; ok && !fs.Flags["stale"] {
+		return fs
+	}
 	if fs, ok := vc.L.Con.Funcs[vc.pkgFuncName(f)]; ok && !fs.Flags["stale"] {
 		return fs
 	}
@@ -34,7 +37,7 @@ func (vc *VC) inPkg(f *ssa.Function) bool {
 }
 
 func isSpecHelper(name string) bool {
-	return name == "__forall" || name == "__exists" || name == "__old" || name == "__trigger"
+	return name == "__forall" || name == "__exists" || name == "__old" || name == "__trigger" || name == "__has"
 }
 
 func (vc *VC) isSpecDecl(name string) *SpecDecl {
@@ -108,6 +111,12 @@ func (fr *Frame) staticCall(t *ssa.Call, callee *ssa.Function, bindings []Val) {
 		case name == "__trigger":
 			fr.vals[t] = Val{T: tTrue}
 			return
+		case name == "__has":
+			mt := vc.rt(t.Common().Args[0].Type()).Underlying().(*types.Map)
+			has, _, _, _, _ := vc.mapHeaps(mt)
+			m := args[0].T
+			fr.vals[t] = Val{T: and(not(isNil(m)), sel(vc.heapRead(fr.st, has, m), args[1].T, SBool))}
+			return
 		}
 		if d := vc.isSpecDecl(name); d != nil && callee.Signature.Recv() == nil {
 			if d.Kind == "ghost" {
@@ -125,7 +134,7 @@ func (fr *Frame) staticCall(t *ssa.Call, callee *ssa.Function, bindings []Val) {
 		body := callee
 		var saved map[*types.TypeParam]types.Type
 		restore := false
-		if callee.Origin() != nil && len(callee.Blocks) == 0 || callee.Origin() != nil {
+		if callee.Origin() != nil && len(callee.Blocks) == 0 {
 			body = callee.Origin()
 			saved = vc.tsubst
 			vc.tsubst = instSubst(callee, saved)
@@ -392,22 +401,117 @@ func (fr *Frame) quantifier(forall bool, clo Val) Term {
 	vc.qdepth--
 	// a single 8-bit bound variable ranges over 256 values: expand into a finite conjunction or
 	// disjunction (the instances fold to small bit tests, which the solvers decide at once)
-	if len(fn.Params) == 1 && args[0].T.Sort == bvSort(8) && vc.qdepth == 0 && len(body.T.S) < 3000 && !strings.Contains(body.T.S, "(forall ") && !strings.Contains(body.T.S, "(exists ") && !underSelect(body.T.S, args[0].T.S) {
-		var insts []Term
+	if len(fn.Params) == 1 && args[0].T.Sort == bvSort(8) && vc.qdepth == 0 && !strings.Contains(body.T.S, "(forall ") && !strings.Contains(body.T.S, "(exists ") && !underSelect(body.T.S, args[0].T.S) {
 		name := args[0].T.S
-		for k := 0; k < 256; k++ {
-			insts = append(insts, Term{replaceSym(body.T.S, name, fmt.Sprintf("(_ bv%d 8)", k)), SBool})
+		hb, binds := vc.hoistInvariant(body.T.S, name)
+		if len(hb) < 1500 {
+			var sb strings.Builder
+			if forall {
+				sb.WriteString("(=> true (and")
+			} else {
+				sb.WriteString("(or false")
+			}
+			for k := 0; k < 256; k++ {
+				sb.WriteByte(' ')
+				sb.WriteString(replaceSym(hb, name, fmt.Sprintf("(_ bv%d 8)", k)))
+			}
+			if forall {
+				sb.WriteString("))")
+			} else {
+				sb.WriteString(")")
+			}
+			t := sb.String()
+			for i := len(binds) - 1; i >= 0; i-- {
+				t = "(let (" + binds[i] + ") " + t + ")"
+			}
+			return Term{t, SBool}
 		}
-		if forall {
-			return Term{"(=> true (and " + joinTerms(insts) + "))", SBool}
-		}
-		return Term{"(or " + joinTerms(insts) + ")", SBool}
 	}
 	q := "forall"
 	if !forall {
 		q = "exists"
 	}
 	return Term{fmt.Sprintf("(%s (%s) %s)", q, strings.Join(bound, " "), body.T.S), SBool}
+}
+
+// hoistInvariant replaces the maximal compound subterms of body that do not mention sym by
+// let-bound names, so that instantiating sym 256 times stays small.
+func (vc *VC) hoistInvariant(body, sym string) (string, []string) {
+	type node struct {
+		start, end int
+		has        bool
+		kids       []*node
+		atom       bool
+	}
+	var parse func(i int) (*node, int)
+	parse = func(i int) (*node, int) {
+		for i < len(body) && body[i] == ' ' {
+			i++
+		}
+		if body[i] == '(' {
+			n := &node{start: i}
+			i++
+			for {
+				for i < len(body) && body[i] == ' ' {
+					i++
+				}
+				if body[i] == ')' {
+					n.end = i + 1
+					return n, i + 1
+				}
+				k, j := parse(i)
+				n.kids = append(n.kids, k)
+				if k.has {
+					n.has = true
+				}
+				i = j
+			}
+		}
+		j := i
+		for j < len(body) && body[j] != ' ' && body[j] != ')' && body[j] != '(' {
+			j++
+		}
+		return &node{start: i, end: j, atom: true, has: body[i:j] == sym}, j
+	}
+	root, _ := parse(0)
+	names := map[string]string{}
+	var binds []string
+	var out strings.Builder
+	var emit func(n *node)
+	emit = func(n *node) {
+		if n.atom {
+			out.WriteString(body[n.start:n.end])
+			return
+		}
+		txt := body[n.start:n.end]
+		// never hoist the operator position or indexed identifiers like (_ bv1 8) / (_ extract 7 0)
+		if !n.has && len(txt) >= 40 && !strings.HasPrefix(txt, "(_ ") {
+			nm, ok := names[txt]
+			if !ok {
+				vc.nfresh++
+				nm = fmt.Sprintf("h!%d", vc.nfresh)
+				names[txt] = nm
+				binds = append(binds, fmt.Sprintf("(%s %s)", nm, txt))
+			}
+			out.WriteString(nm)
+			return
+		}
+		out.WriteByte('(')
+		for i, k := range n.kids {
+			if i > 0 {
+				out.WriteByte(' ')
+			}
+			// operator in head position such as ((_ zero_extend 56) x): emit verbatim
+			if i == 0 && !k.atom {
+				out.WriteString(body[k.start:k.end])
+				continue
+			}
+			emit(k)
+		}
+		out.WriteByte(')')
+	}
+	emit(root)
+	return out.String(), binds
 }
 
 // underSelect reports whether sym occurs inside the arguments of a select or store.
@@ -498,7 +602,7 @@ func (fr *Frame) contractCall(t *ssa.Call, callee *ssa.Function, fs *FuncSpec, a
 	cname := vc.pkgFuncName(callee)
 	site := fmt.Sprintf("%s#pre(%s)", fr.fname(), cname)
 	var saved map[*types.TypeParam]types.Type
-	if callee.Origin() != nil {
+	if _, inst := vc.L.Con.Funcs[callee.RelString(vc.L.SPkg.Pkg)]; callee.Origin() != nil && !inst {
 		saved = vc.tsubst
 		vc.tsubst = instSubst(callee, saved)
 		defer func() { vc.tsubst = saved }()
@@ -564,7 +668,7 @@ func (fr *Frame) contractCall(t *ssa.Call, callee *ssa.Function, fs *FuncSpec, a
 					}
 				}
 			}
-			vc.xexits = append(vc.xexits, Exit{Cond: and(fr.live, pc), St: xst, What: "panic in " + cname, Pos: t.Pos()})
+			vc.xexits = append(vc.xexits, Exit{Cond: and(fr.live, pc), St: xst, What: "panic in " + cname, Pos: t.Pos(), NAss: len(vc.asserts)})
 		}
 		fr.live = vc.name("live", and(fr.live, not(pc)))
 	}
@@ -771,7 +875,7 @@ func notInMod(entries []modEntry, heap string, q Term) (Term, bool) {
 // applyModifies havocs in post what the callee may modify and adds frame facts.
 func (vc *VC) applyModifies(callee *ssa.Function, fs *FuncSpec, args []Val, pre, post *State) {
 	body := callee
-	if callee.Origin() != nil {
+	if callee.Origin() != nil && len(callee.Blocks) == 0 {
 		body = callee.Origin()
 	}
 	entries, has := vc.resolveModifies(fs, args, pre)
@@ -915,11 +1019,12 @@ func (vc *VC) modOfBlocks(fn *ssa.Function, blocks map[*ssa.BasicBlock]bool) (ma
 						continue
 					}
 					body := callee
-					if callee.Origin() != nil {
+					useOrigin := callee.Origin() != nil && len(callee.Blocks) == 0
+					if useOrigin {
 						body = callee.Origin()
 					}
 					var saved map[*types.TypeParam]types.Type
-					if callee.Origin() != nil {
+					if useOrigin {
 						saved = vc.tsubst
 						vc.tsubst = instSubst(callee, saved)
 					}
@@ -937,7 +1042,7 @@ func (vc *VC) modOfBlocks(fn *ssa.Function, blocks map[*ssa.BasicBlock]bool) (ma
 							all = true
 						}
 					}
-					if callee.Origin() != nil {
+					if useOrigin {
 						vc.tsubst = saved
 					}
 				case *ssa.MakeClosure:
@@ -1193,9 +1298,6 @@ func (fr *Frame) appendBuiltin(t *ssa.Call) {
 	// element heaps
 	hs := map[string]bool{}
 	vc.heapsOfType(st.Elem(), hs)
-	if nestedStruct(vc, st.Elem()) {
-		unsup("append of elements with nested struct fields")
-	}
 	// constant number of appended elements?
 	var cnt int = -1
 	for k := 0; k <= 4; k++ {
@@ -1212,7 +1314,7 @@ func (fr *Frame) appendBuiltin(t *ssa.Call) {
 		nh := vc.freshConst(h, oldH.Sort)
 		vc.rootBound[nh.S] = fr.st.nalloc
 		vc.asserts = append(vc.asserts,
-			fmt.Sprintf("(forall ((q Ptr)) (! (= (select %[1]s q) (ite (and (= (alloc q) (alloc %[2]s)) ((_ is PE) (path q)) (= (pe_p (path q)) PNil)) (ite (bvult (pe_i (path q)) %[3]s) (select %[4]s (elemptr %[5]s (pe_i (path q)))) %[6]s) (select %[4]s q))) :pattern ((select %[1]s q))))",
+			fmt.Sprintf("(forall ((q Ptr)) (! (= (select %[1]s q) (ite (= (alloc q) (alloc %[2]s)) (ite (bvult (rootidx3 (path q)) %[3]s) (select %[4]s (mkptr (alloc %[5]s) (rebase3 (path q) (pe_p (path %[5]s)) (pe_i (path %[5]s))))) %[6]s) (select %[4]s q))) :pattern ((select %[1]s q))))",
 				nh.S, fresh.S, slen(s).S, oldH.S, sptr(s).S, vc.zeroOfSort(vs).S))
 		fr.st.heaps[h] = vc.name(h, ite(inplace, oldH, nh))
 		fr.st.roots[h] = append(append([]string{}, roots...), nh.S)
